@@ -36,4 +36,27 @@ func TestCheckHardConstraints(t *testing.T) {
 		func(t *rapid.T) *sim.World { return sim.GenWorld(t, profile()) }, sim.JudgeConstraints)
 }
 
+// topology families: a topology always exists, (nearly) every workload carries a required or preferred level, workloads
+// start partly running inside ONE domain of their required level (sometimes with a terminating pod left behind in
+// another domain), elastic and gang shapes with pending pods to place, small nodes so that the pinned domain is often full.
+func topoProfile() sim.Profile {
+	pf := profile()
+	pf.TopoFamily = true
+	pf.PTopology = 10
+	pf.PConstraints = 2
+	pf.PPool = 0
+	pf.PRunning = 8
+	pf.PElastic = 6
+	pf.PGang = 6
+	pf.PTerminating = 2
+	pf.Fill = true
+	pf.MaxGroups = 6
+	return pf
+}
+
+func TestCheckTopologyFamilies(t *testing.T) {
+	sim.CheckProperty(t, "C04", kit.Budget{Quick: 4000, Thorough: 200000},
+		func(t *rapid.T) *sim.World { return sim.GenWorld(t, topoProfile()) }, sim.JudgeConstraints)
+}
+
 func TestReplay(t *testing.T) { sim.ReplayProperty(t, sim.JudgeConstraints, 20) }
